@@ -34,7 +34,7 @@ EPS = 1e-6
 
 def plan(tier):
     if tier == "quick":
-        return [{"n": 130, "i": i, "strict": i % 2 == 0} for i in range(16)]
+        return [{"n": 105, "i": i, "strict": i % 2 == 0} for i in range(16)]
     return [{"n": 8000, "i": i, "strict": i % 2 == 0} for i in range(16)]
 
 
